@@ -78,7 +78,7 @@ func configVariants(scs []engine.Scenario, tier string, which ...string) []engin
 				orig := sc.Actions
 				c.Actions = func(s *world.Stack, w *world.World) []engine.Action {
 					acts := orig(s, w)
-					return append(acts, withFaults(acts, markers, []string{"db.Save", "db.Load", "db.Save#2", "db.Load#2"})...)
+					return append(acts, withFaults(acts, markers, []string{"db.Save", "db.Load", "db.Save#2", "db.Load#2", "db.DelRememberTokens"})...)
 				}
 			}
 			if c.Depth > 3 && (tier == "thorough" || strings.HasPrefix(v, "faults")) {
